@@ -49,19 +49,20 @@ Theorem C05_return_does_not_abort_the_wait : forall tick sc s c v u held s1 v1 e
 Proof. exact wait_rpc_holds_return. Qed.
 Print Assumptions C05_return_does_not_abort_the_wait.
 
-(* ... and once the call's own reply is in, the first error held back is raised, the request is
-   forgotten (no reply of it can be outstanding, so none can reach a later call - this was the
-   finding rpc-aborted+late-reply, see KNOWN_FINDINGS.txt) and the others are back at the head
-   of the queue *)
-Theorem C05_reply_consumed_then_return_raised : forall sc s c v0 v u f l h more,
+(* ... and once the reply is in, the wait ends normally with that reply first in line - the call
+   goes on to return it - while the errors held back are at the head of the queue again, for the
+   operation that follows to report.  No request is given up with its reply outstanding, so no
+   reply can reach a later call (this was the finding rpc-aborted+late-reply, see
+   KNOWN_FINDINGS.txt) *)
+Theorem C05_reply_taken_return_requeued : forall sc s c v0 v u f l held,
   get_chan (s_chans s) c = Some v -> resp_get (c_resp v) u = Some (f :: l) ->
-  exists s' v', wait_rpc sc s c v0 u false (h :: more) = (s', v', Raise h, sc) /\
+  exists s' v', wait_rpc sc s c v0 u false held = (s', v', Ok tt, sc) /\
                 get_chan (s_chans s') c = Some v' /\
-                c_errs v' = more ++ c_errs v /\
-                c_req v' = req_del_uuid (c_req v) u /\ c_resp v' = resp_del (c_resp v) u /\
+                c_errs v' = held ++ c_errs v /\
+                c_req v' = c_req v /\ resp_get (c_resp v') u = Some (f :: l) /\
                 s_out s' = s_out s.
-Proof. exact wait_rpc_reply_then_return. Qed.
-Print Assumptions C05_reply_consumed_then_return_raised.
+Proof. exact wait_rpc_reply_requeues. Qed.
+Print Assumptions C05_reply_taken_return_requeued.
 
 (* the history that used to fail *)
 Example C05_aborted_history : let i := ((1%nat, [{| st_chan := 1%nat; st_op := (ARpc 0%nat); st_script := [[(1%nat, {| f_name := NReturn; f_num := (312)%Z; f_str := ([]%N) |}); (1%nat, {| f_name := NHeader; f_num := (0)%Z; f_str := ([]%N) |})]; [(1%nat, {| f_name := NDeclareOk; f_num := (1)%Z; f_str := ([]%N) |})]] |}; {| st_chan := 1%nat; st_op := (ARpc 0%nat); st_script := [[(1%nat, {| f_name := NDeclareOk; f_num := (2)%Z; f_str := ([]%N) |})]] |}])) in c05_ok i (chan_model i) = true.
